@@ -549,7 +549,12 @@ func runP(c PCase, rec *h.Rec) {
 	ba := bam.VerifBinFor(c.A.Beg, c.A.End)
 	// a bin list belongs to the caller: enumerate B's, then A's, then look at B's
 	listB := bam.VerifOverlappingBinsFor(c.B.Beg, c.B.End)
+	keepB := append([]uint32(nil), listB...)
 	_ = bam.VerifOverlappingBinsFor(c.A.Beg, c.A.End)
+	if !sameSet(listB, keepB) {
+		rec.Failf("the bin list of [%d,%d) changed when the list of [%d,%d) was enumerated: %v, it was %v", c.B.Beg, c.B.End, c.A.Beg, c.A.End, listB, keepB)
+		return
+	}
 	if !contains(listB, ba) {
 		rec.Failf("intervals [%d,%d) and [%d,%d) overlap but bin %d of the first is not in the bin list of the second once another list has been enumerated: %v", c.A.Beg, c.A.End, c.B.Beg, c.B.End, ba, listB)
 		return
